@@ -399,9 +399,130 @@ def run(tier):
             v.distinct((j["id"],))
             if v.cov["evaluations"] % 400 == 1:
                 v.sample({"argv": o["argv"], "source": j["src"], "program": j["prog"][:4], "exit": o["rc"], "stdout": out[:80] if k not in ("-Pstdout",) else o["stdout"].hex()[:80]})
+    # ---- the NUMBER given to -c / -b: whatever asmline accepts must be the chunk size the output is made with; what is not an integer
+    # > 1 (trailing characters, fractions, out of range) cannot be honoured and must end in a non-zero status. For spellings an
+    # integer parser may or may not take (hex, sign, blanks, leading zero) both a rejection and the value they denote are accepted.
+    NUMS = [("16", [16], False), ("2", [2], False), ("2147483647", [2147483647], False), ("4294967298", [4294967298], True), ("4294967312", [4294967312], True),
+            ("2147483648", [2147483648], True), ("18446744073709551618", [], True), ("99999999999999999999", [], True), ("2.5", [], True), ("16abc", [], True), ("16,5", [], True),
+            ("1e3", [], True), ("", [], True), ("-5", [], True), ("-16", [], True), ("0x10", [16], True), (" 16", [16], True), ("16 ", [16], True), ("+16", [16], True), ("016", [16, 14], True), ("１６", [], True)]
+    nprogs = [pv[0] for pv in progs if pv[1]][:2 if not full else 8]
+    refc, refi = [], {}
+    for pi, prog in enumerate(nprogs):
+        text = "\n".join(prog) + "\n"
+        for arg, readings, _ in NUMS:
+            for N in readings:
+                if (pi, N) in refi:
+                    continue
+                refi[(pi, N)] = len(refc)
+                cm = ["new 0 int", "chunk 0 %d" % N, "asm 0 %s" % common.hx(text), "dumpoff 0"]
+                if N <= 2147483647:
+                    cm += ["new 1 int", "cnt 1 %d %s" % (N, common.hx(text))]
+                refc.append(cm)
+    refr = common.run_cases(drv, refc, tag="c20n")
+    njobs = [(pi, arg, readings, rej, kind) for pi in range(len(nprogs)) for (arg, readings, rej) in NUMS for kind in ("-pc", "-b")]
+
+    def ngo(job):
+        pi, arg, readings, rej, kind = job
+        src = os.path.join(wd, "num-%d.asm" % pi)
+        if not os.path.exists(src):
+            with open(src, "w") as f:
+                f.write("\n".join(nprogs[pi]) + "\n")
+        argv = [asmline] + (["-p", "-c", arg] if kind == "-pc" else ["-b", arg]) + [src]
+        try:
+            return subprocess.run(argv, capture_output=True, env=env, timeout=30, stdin=subprocess.DEVNULL)
+        except subprocess.TimeoutExpired:
+            return None
+    with ThreadPoolExecutor(max_workers=common.NPROC) as ex:
+        nouts = list(ex.map(ngo, njobs))
+    stats["number_argument_cases"] = 0
+    for (pi, arg, readings, rej, kind), r in zip(njobs, nouts):
+        v.count()
+        case = {"key": "asmline %s %r prog#%d" % ("-p -c" if kind == "-pc" else "-b", arg, pi), "fam": "asmline", "out": kind + "num", "arg": arg, "program": nprogs[pi][:4]}
+        if r is None:
+            v.violation(case, "crash:hang", None)
+            continue
+        err = r.stderr.decode("latin-1")
+        sig = common.san_summary(err)
+        if sig or r.returncode < 0 or r.returncode > 1 and r.returncode != 97:
+            v.violation(case, sig or ("asmline-exit=%d" % r.returncode), err[-800:])
+            continue
+        if r.returncode != 0:
+            if not rej:
+                v.violation(case, "exit-status:%d-but-should-succeed" % r.returncode, err[-300:])
+            else:
+                stats["number_argument_cases"] += 1
+                v.distinct(("num", pi, arg, kind, "rejected"))
+            continue
+        out = r.stdout.decode("latin-1")
+        wants = []
+        for N in readings:
+            rr = refr[refi[(pi, N)]]
+            if rr["crash"]:
+                continue
+            recs = rr["records"]
+            if kind == "-pc":
+                d = recs[3].split()[1]
+                wants.append(fmt_chunks("" if d == "-" else d, N))
+            elif N <= 2147483647:
+                wants.append(recs[5].split()[4] + "\n")
+        if out in wants:
+            stats["number_argument_cases"] += 1
+            v.distinct(("num", pi, arg, kind, "accepted"))
+        elif not readings:
+            v.violation(case, "exit-status:0-but-should-fail", "the argument %r is not an integer > 1 that fits; output %r" % (arg, out[:120]))
+        else:
+            v.violation(case, "number-argument-honoured-with-another-value", "argument %r: output %r is not that of chunk size %s" % (arg, out[:160], readings))
+    # ---- -r[=LEN]: "each pointer points to an array of LEN 64-bit elements". The assembled code runs uninstrumented, so an array that
+    # is shorter than LEN is invisible to ASan; valgrind memcheck sees the code's accesses. Programs that write and read the LAST
+    # element of all six arrays, for LEN given as -r=LEN and --return=LEN (just above the default 10, small, large), the default and --rand
+    import shutil
+    vg = shutil.which("valgrind")
+    stats["valgrind_runs"] = 0
+    if vg:
+        plain_asmline = os.path.join(wd, "asmline-plain")
+        cmdp = ["gcc", "-O1", "-g", "-w", "-I" + os.path.join(common.REPO, "src")] + common.lib_sources() + [os.path.join(common.REPO, "tools", "asmline.c"), "-o", plain_asmline]
+        if subprocess.run(cmdp, capture_output=True).returncode:
+            raise common.HarnessError("plain asmline build failed")
+        vjobs = []
+        for how, LEN in [("-r", 10), ("--return", 10), ("--rand", 10)] + [(f % n, n) for n in ((2, 3, 11, 12, 100) if not full else (1, 2, 3, 4, 9, 11, 12, 13, 16, 100, 1000)) for f in ("-r=%d", "--return=%d")]:
+            body, want = [], 0
+            for i, reg in enumerate(("rdi", "rsi", "rdx", "rcx", "r8", "r9")):
+                body += ["mov qword [%s+%d], %d" % (reg, 8 * (LEN - 1), 0x11 * (i + 1))]
+            body += ["xor rax, rax"]
+            for i, reg in enumerate(("rdi", "rsi", "rdx", "rcx", "r8", "r9")):
+                body += ["shl rax, 8", "add rax, [%s+%d]" % (reg, 8 * (LEN - 1))]
+                want = (want << 8) + 0x11 * (i + 1)
+            body += ["ret"]
+            vjobs.append((how, LEN, body, want))
+
+        def vgo(job):
+            how, LEN, body, want = job
+            src = os.path.join(wd, "vg-%s-%d.asm" % (how.strip("-").replace("=", ""), LEN))
+            with open(src, "w") as f:
+                f.write("\n".join(body) + "\n")
+            try:
+                return subprocess.run([vg, "-q", "--error-exitcode=99", plain_asmline, how, src], capture_output=True, timeout=300, stdin=subprocess.DEVNULL)
+            except subprocess.TimeoutExpired:
+                return None
+        with ThreadPoolExecutor(max_workers=common.NPROC) as ex:
+            vouts = list(ex.map(vgo, vjobs))
+        for (how, LEN, body, want), r in zip(vjobs, vouts):
+            v.count()
+            case = {"key": "valgrind asmline %s: last element (%d) of the six arrays" % (how, LEN - 1), "fam": "asmline", "out": how, "program": body[:3]}
+            if r is None:
+                v.inconclusive.append({"why": "timeout", "case": case["key"]})
+                continue
+            err = r.stderr.decode("latin-1")
+            if r.returncode == 99 or "Invalid write" in err or "Invalid read" in err:
+                v.violation(case, "r-arrays-shorter-than-LEN:invalid-" + ("write" if "Invalid write" in err else "read"), err[:1200])
+            elif r.returncode != 0 or r.stdout.decode("latin-1") != "\nthe value is 0x%x\n" % want:
+                v.violation(case, "returned-value-differs", "exit %d, got %r want 0x%x\n%s" % (r.returncode, r.stdout[:80], want, err[-400:]))
+            else:
+                stats["valgrind_runs"] += 1
+                v.distinct(("vg", how, LEN))
     v.cov["rule"] = ("asmline (tools/asmline.c built with ASan+UBSan from the working tree) vs the library driven through the corresponding documented option calls: seeded programs (valid, with option-sensitive probe lines, "
-                     "with one invalid line, executable ones returning values up to 2^64-1, empty / blank / comment-only programs, programs of 100-3000 (thorough: 6000) lines) x every mode flag and non-conflicting flag pairs x outputs {-p, -P file, -P /dev/stdout, -o, -c N (binary), -p -c N, -b N, -p -b N, -r, -r=0/2/3/100, --return[=5], unwritable -P, printed outputs to a full / closed standard output; chunk sizes 4..10^6; options before or after FILE} x {FILE, stdin, stdin delivered in pieces of 1 / 7 / 40 / 4096 bytes}. "
-                     "Binary outputs must equal the library bytes, -p the hex rows per instruction (chunk rows with -c), -b the library count, -r the value the code returns; exit status 0 iff assembly and output succeeded")
+                     "with one invalid line, executable ones returning values up to 2^64-1, empty / blank / comment-only programs, programs of 100-3000 (thorough: 6000) lines) x every mode flag and non-conflicting flag pairs x outputs {-p, -P file, -P /dev/stdout, -o, -c N (binary), -p -c N, -b N, -p -b N, -r, -r=0/2/3/100, --return[=5], unwritable -P, printed outputs to a full / closed standard output; 21 spellings of the number given to -c / -b (huge, fractional, trailing characters, hex, signs, blanks); chunk sizes 4..10^6; options before or after FILE} x {FILE, stdin, stdin delivered in pieces of 1 / 7 / 40 / 4096 bytes}. "
+                     "-r / -r=LEN / --return=LEN / --rand additionally under valgrind memcheck with programs that touch the last element of all six arrays. Binary outputs must equal the library bytes, -p the hex rows per instruction (chunk rows with -c), -b the library count, -r the value the code returns; exit status 0 iff assembly and output succeeded")
     v.cov["exhaustive"] = False
     v.cov.update(stats)
     return v.finish(None, stats["exit0"] > 300 and stats["exit_nonzero"] > 20, "too few invocations: %r" % stats)
